@@ -1,6 +1,185 @@
-(* C06 -- placeholder while the development is being built; replaced below *)
-From Coq Require Import List.
-From GY Require Import Model.Schema.
+(* C06 -- every use of a grouping is an independent, faithful, locally scoped copy.
+   Only statements, closed by [exact], and non-vacuity examples.
+
+   [to_entry], [FindGrouping], [Process], [locate], [update_at] are the model (Model/Schema.v); [inline_node],
+   [inline_body], [inline_stmts] are the reference expansion on SOURCE schemas (Spec/C06.v): every `uses g` replaced
+   by the statements of the grouping g denotes there, references inside those statements resolved (inlined) in the
+   grouping's defining context first, failing on unknown and cyclic groupings.
+   The model's entries are immutable trees: two instances of a grouping are separate subtrees by construction; what
+   the model can and does state about independence is the frame property of updates (T4).  Object sharing on the
+   implementation is checked by the two-run oracle of check/props/c06.py and by the pointer-level walker. *)
+From Coq Require Import List NArith Bool.
+From GY Require Import Model.Schema Spec.C06 Spec.C04 Proofs.SchemaLemmas Proofs.GroupingProofs.
 Import ListNotations.
-Theorem C06_stub : forall e, locate e [] = Some e.
-Proof. intros; reflexivity. Qed.
+
+(* ------------------------------------------------------------------ T1 faithful *)
+(* the core: inside a body, a uses statement is processed exactly as the statements of its grouping would be in its
+   place, evaluated in the grouping's DEFINING context gc (with the grouping marked busy) -- same resulting child
+   list in the same order, duplicates detected identically (same flag) *)
+Theorem C06_T1_uses_is_splice : forall SC f c' busy acc g gid gb gc,
+  FindGrouping SC c' g = Some (gid, gb, gc) -> existsb (Nat.eqb gid) busy = false ->
+  body_step SC (S f) c' busy acc (DUses g) =
+  fold_left (body_step SC f (inner_ctx gc gb) (gid :: busy)) gb acc.
+Proof. exact uses_is_splice. Qed.
+
+(* wherever the reference expansion succeeds, the entry tree of a statement IS the entry tree of its inlined form:
+   identical entry (names, kinds, types, defaults, constraints, nesting, even child order) and identical error flag,
+   and the inlined form can be built in any context, with any busy set and any larger fuel -- it refers to no
+   grouping any more *)
+Theorem C06_T1_inline_faithful : forall SC f c busy n n',
+  inline_node SC f c busy n = Some n' ->
+  forall f2 c2 busy2, f <= f2 -> to_entry SC f c busy n = to_entry SC f2 c2 busy2 n'.
+Proof. exact inline_faithful. Qed.
+
+Theorem C06_T1_inline_body_faithful : forall SC f c busy body body',
+  inline_body SC f c busy body = Some body' ->
+  forall f2 c2 busy2, f <= f2 -> body_dir SC f c busy body = body_dir SC f2 c2 busy2 body'.
+Proof. exact inline_body_faithful. Qed.
+
+(* the statement list of a module, submodule or augment, with the model's own fuel *)
+Theorem C06_T1_module_statements : forall SC m scopes body body',
+  inline_stmts SC m scopes body = Some body' ->
+  forall c2 busy2, body_entry SC m scopes body = to_entry SC (entry_fuel SC) c2 busy2 (DGrouping O [] body').
+Proof. exact inline_stmts_faithful. Qed.
+
+(* namespace: no node built from sources carries a namespace stamp (only Augment stamps), so every copy belongs to
+   the namespace of the tree it is in -- the module that uses the grouping, not the one that defines it *)
+Theorem C06_T1_copies_unstamped : forall SC fuel c busy n, NoStamp (fst (to_entry SC fuel c busy n)).
+Proof. exact to_entry_nostamp. Qed.
+
+Theorem C06_T1_namespace_of_using_module : forall SC F p root,
+  lookup (fst p) F = Some root -> NoStamp root ->
+  Namespace SC F p = match find_module SC (fst p) with Some m => owner_ns SC m | None => [] end.
+Proof. exact Namespace_unstamped. Qed.
+
+(* ------------------------------------------------------------------ T2 scoping *)
+(* the innermost enclosing definition wins; its defining context is the scope chain from there outwards *)
+Theorem C06_T2_innermost : forall SC m sc o outer name gid b,
+  find_in name (groupings_of sc) = Some (gid, b) ->
+  find_grouping_scopes SC m (sc :: o :: outer) name = Some (gid, b, {| g_mod := m; g_scopes := sc :: o :: outer |}).
+Proof. exact find_scopes_innermost. Qed.
+
+Theorem C06_T2_skip_scope : forall SC m sc o outer name,
+  find_in name (groupings_of sc) = None ->
+  find_grouping_scopes SC m (sc :: o :: outer) name = find_grouping_scopes SC m (o :: outer) name.
+Proof. exact find_scopes_skip. Qed.
+
+(* the outermost scope is the module itself: its own top-level groupings first ... *)
+Theorem C06_T2_module_level : forall SC m top name,
+  find_grouping_scopes SC m [top] name = fst (find_grouping_mod (S (length SC)) SC m false name []).
+Proof. exact find_scopes_module. Qed.
+
+Theorem C06_T2_module_own : forall SC f m name seen gid b,
+  find_in name (groupings_of (m_body m)) = Some (gid, b) ->
+  find_grouping_mod (S f) SC m false name seen = (Some (gid, b, {| g_mod := m; g_scopes := [m_body m] |}), seen).
+Proof. exact find_mod_own. Qed.
+
+(* ... a name that carries no import prefix is then searched in the included submodules only (depth first, each
+   submodule once) ... *)
+Theorem C06_T2_includes : forall SC f m name seen,
+  find_in name (groupings_of (m_body m)) = None ->
+  (forall p mn, In (p, mn) (m_imports m) -> has_prefix (p ++ [cCOLON]) name = false) ->
+  find_grouping_mod (S f) SC m false name seen = includes_walk SC f name (m_includes m) seen.
+Proof. exact find_mod_includes. Qed.
+
+(* ... and a name carrying the prefix of an import is searched in exactly that module, without the prefix *)
+Theorem C06_T2_import : forall SC f m name seen before p mn after im,
+  find_in name (groupings_of (m_body m)) = None ->
+  m_imports m = before ++ (p, mn) :: after ->
+  (forall p' mn', In (p', mn') before -> has_prefix (p' ++ [cCOLON]) name = false) ->
+  has_prefix (p ++ [cCOLON]) name = true ->
+  find_module SC mn = Some im ->
+  forall g seen', find_grouping_mod f SC im true (trim_prefix (p ++ [cCOLON]) name) seen = (Some g, seen') ->
+  find_grouping_mod (S f) SC m false name seen = (Some g, seen').
+Proof. exact find_mod_import. Qed.
+
+Theorem C06_T2_import_lands_in_that_module : forall SC f im name seen gid b,
+  find_in (trim_prefix (m_prefix im ++ [cCOLON]) name) (groupings_of (m_body im)) = Some (gid, b) ->
+  find_grouping_mod (S f) SC im true name seen = (Some (gid, b, {| g_mod := im; g_scopes := [m_body im] |}), seen).
+Proof. exact find_mod_import_own. Qed.
+
+(* the module's own prefix is dropped first: p:g and g denote the same grouping *)
+Theorem C06_T2_own_prefix : forall SC c name,
+  has_prefix (m_prefix (g_mod c) ++ [cCOLON]) name = false ->
+  FindGrouping SC c ((m_prefix (g_mod c) ++ [cCOLON]) ++ name) = FindGrouping SC c name.
+Proof. exact FindGrouping_own_prefix. Qed.
+(* references inside a grouping are resolved from its defining context: that is the [inner_ctx gc gb] of
+   C06_T1_uses_is_splice -- the user's context c' does not occur on the right-hand side *)
+
+(* ------------------------------------------------------------------ T3 unknown / cyclic => error *)
+(* wherever the reference expansion fails -- unknown grouping, a grouping reached again while being expanded (cycle),
+   fuel exhausted -- the entry is built with its error flag set *)
+Theorem C06_T3_inline_none_is_error : forall SC f c busy n,
+  inline_node SC f c busy n = None -> snd (to_entry SC f c busy n) = true.
+Proof. exact inline_none_is_error. Qed.
+
+(* ... and Process reports it, for the statements of any module or submodule of the set *)
+Theorem C06_T3_process_error : forall SC ignoreCirc ignoreNotSupported order m,
+  In m SC -> inline_stmts SC m [] (m_body m) = None -> Process SC ignoreCirc ignoreNotSupported order = RErr.
+Proof. exact inline_fail_process_error. Qed.
+
+(* ------------------------------------------------------------------ T4 independence: the frame of an update *)
+(* whatever is done at position p (an augment merging children there, a deviation changing attributes there), every
+   position that is neither p, below p nor above p is left exactly as it was -- in particular every other instance
+   of the same grouping *)
+Theorem C06_T4_frame_tree : forall f p q e, unrelated p q -> locate (update_at e p f) q = locate e q.
+Proof. exact locate_update_at_unrelated. Qed.
+
+Theorem C06_T4_frame_forest : forall f F p q,
+  fst p <> fst q \/ unrelated (snd p) (snd q) -> locate_pos (update_pos F p f) q = locate_pos F q.
+Proof. exact locate_update_pos_frame. Qed.
+
+(* deviate not-supported removes child n of the node at [parent]: nothing outside parent/n changes *)
+Theorem C06_T4_frame_not_supported : forall n parent q e,
+  unrelated (parent ++ [SChild n]) q ->
+  locate (update_at e parent (fun pe => match e_dir pe with Some d => set_dir pe (Some (remove n d)) | None => pe end)) q
+  = locate e q.
+Proof. exact locate_remove_frame. Qed.
+
+(* ------------------------------------------------------------------ non-vacuity *)
+Definition s (x : list nat) : str := map N.of_nat x.
+Definition n_a := s [97]. Definition n_b := s [98]. Definition n_x := s [120]. Definition n_y := s [121].
+Definition n_g := s [103]. Definition n_h := s [104]. Definition n_m := s [109]. Definition n_p := s [112].
+Definition t_string := s [115;116;114;105;110;103].
+Definition lf (n : str) := DLeaf n t_string TSUnset TSUnset None None.
+
+(* module m { prefix p; grouping h { leaf y; }  grouping g { leaf x; container b { uses h; } }
+              container a { grouping h { leaf x; } uses g; }    -- g's "uses h" is the OUTER h (defining scope)
+              container b2 { uses p:g; } } *)
+Definition ex_body : list dnode :=
+  [ DGrouping 1 n_h [lf n_y];
+    DGrouping 2 n_g [lf n_x; DContainer n_b TSUnset [DUses n_h]];
+    DContainer n_a TSUnset [DGrouping 3 n_h [lf n_x]; DUses n_g];
+    DContainer (s [98;50]) TSUnset [DUses (s [112;58;103])] ].
+Definition ex_mod : module :=
+  {| m_name := n_m; m_prefix := n_p; m_ns := s [117]; m_belongs := None; m_imports := []; m_includes := [];
+     m_body := ex_body; m_augments := []; m_deviations := [] |}.
+
+Example C06_ex_inline : inline_stmts [ex_mod] ex_mod [] ex_body =
+  Some [ DGrouping 1 n_h [lf n_y];
+         DGrouping 2 n_g [lf n_x; DContainer n_b TSUnset [lf n_y]];
+         DContainer n_a TSUnset [DGrouping 3 n_h [lf n_x]; lf n_x; DContainer n_b TSUnset [lf n_y]];
+         DContainer (s [98;50]) TSUnset [lf n_x; DContainer n_b TSUnset [lf n_y]] ].
+Proof. vm_compute. reflexivity. Qed.
+
+Example C06_ex_two_instances : exists F, Process [ex_mod] false false [n_m] = ROk F /\
+  locate_pos F (n_m, [SChild n_a; SChild n_b; SChild n_y]) <> None /\
+  locate_pos F (n_m, [SChild (s [98;50]); SChild n_b; SChild n_y]) <> None /\
+  unrelated [SChild n_a; SChild n_b] [SChild (s [98;50]); SChild n_b].
+Proof. eexists. split; [vm_compute; reflexivity|]. vm_compute. repeat split; discriminate. Qed.
+
+(* a grouping that uses itself through another one, and an unknown grouping: no expansion, Process errors *)
+Definition ex_cyc : module :=
+  {| m_name := n_m; m_prefix := n_p; m_ns := s [117]; m_belongs := None; m_imports := []; m_includes := [];
+     m_body := [DGrouping 1 n_g [DUses n_h]; DGrouping 2 n_h [DContainer n_b TSUnset [DUses n_g]]; DContainer n_a TSUnset [DUses n_g]];
+     m_augments := []; m_deviations := [] |}.
+Example C06_ex_cycle : inline_stmts [ex_cyc] ex_cyc [] (m_body ex_cyc) = None /\ Process [ex_cyc] false false [n_m] = RErr.
+Proof. vm_compute. split; reflexivity. Qed.
+
+Definition ex_unknown : module :=
+  {| m_name := n_m; m_prefix := n_p; m_ns := s [117]; m_belongs := None; m_imports := []; m_includes := [];
+     m_body := [DContainer n_a TSUnset [DGrouping 1 n_g [lf n_x]]; DContainer n_b TSUnset [DUses n_g]];
+     m_augments := []; m_deviations := [] |}.
+Example C06_ex_unknown : inline_stmts [ex_unknown] ex_unknown [] (m_body ex_unknown) = None /\
+  Process [ex_unknown] false false [n_m] = RErr.
+Proof. vm_compute. split; reflexivity. Qed.
